@@ -26,7 +26,7 @@ from simkit import vclock, pipeline as pl
 from simkit.lifecycle import LoggingTestResult
 
 ID = "C04"
-RUNS = {"quick": 400_000, "thorough": 2_000_000}
+RUNS = {"quick": 320_000, "thorough": 2_000_000}
 SIM_TIME_UNIT = "reporter calls / tests dispatched"
 RULE = (
     "each run = one of three scenarios: (history) a scripted history of outcomes over 0..6 tests with "
